@@ -141,6 +141,32 @@ def behaviour(res, inproc, rng, tier):
         cf.add(k, src, main_call=f"c{k}::run();")
         descs[str(k)] = f"#[derive({X})] #[{an}({shared})] enum E {{ #[{an}(\"{{_0:p}}\")] A(&'static u8), #[{an}(\"{{f:p}}|{{}}\", 1)] B {{ f: &'static u8 }}, #[{an}(\"{{:p}}~{{_1}}\", *_0)] C(&'static u8, u8) }}"
         k += 1
+    # attribute-less single-field variants of a Pointer derive under a wrapping enum-level format: `_variant` is what the
+    # variant prints by itself, i.e. the pointer the field holds, not the address of the field (defect of the pinned tree
+    # found in round 7: fixed by 019d8a6); also through the Display-trait `{_variant}` of a non-Display derive
+    for shared, pre, post in (('"<{_variant}>"', "<", ">"), ('"{_variant}"', "", ""), ('"{_variant}/{}", 3', "", "/3")):
+        src = (f"#[derive(derive_more::Pointer)] #[pointer({shared})] pub enum E<'a> {{ A(&'a u8), N {{ f: *const u8 }}, #[pointer(\"{{_0:p}}\")] O(&'a u8) }}\n"
+               "pub static Z: u8 = 9;\n"
+               f"pub fn run() {{ check(\"{k}\", \"A\", format!(\"{{:p}}\", E::A(&Z)), format!(\"{pre}{{:p}}{post}\", &Z));\n"
+               f"  check(\"{k}\", \"N\", format!(\"{{:p}}\", E::N {{ f: &Z }}), format!(\"{pre}{{:p}}{post}\", &Z));\n"
+               f"  check(\"{k}\", \"O\", format!(\"{{:p}}\", E::O(&Z)), format!(\"{pre}{{:p}}{post}\", &Z)); }}")
+        cf.add(k, src, main_call=f"c{k}::run();")
+        descs[str(k)] = f"#[derive(Pointer)] #[pointer({shared})] enum E<'a> {{ A(&'a u8), N {{ f: *const u8 }}, #[pointer(\"{{_0:p}}\")] O(&'a u8) }}"
+        k += 1
+    # a variant's own literal is a *format literal* also when it has no placeholder: its `{{` / `}}` escapes are un-escaped
+    # before the text is bound to `_variant` (added after seed C07-j)
+    for X, an, ch in (("Display", "display", ""), ("Octal", "octal", "o")):
+        plain = ", Plain" if X == "Display" else ""     # an attribute-less unit variant is documented for Display only
+        src = (f"#[derive(derive_more::{X})] #[{an}(\"[{{_variant}}]\")] pub enum E {{ #[{an}(\"{{{{set}}}}\")] Set, #[{an}(\"a}}}}b\")] Two(u8), "
+               f"#[{an}(\"{{{{{{_0}}}}}}\")] Three(u8), #[{an}(\"plain\")] Four {{ x: u8 }}{plain} }}\n"
+               f"pub fn run() {{ check(\"{k}\", \"Set\", format!(\"{{:{ch}}}\", E::Set), String::from(\"[{{set}}]\"));\n"
+               f"  check(\"{k}\", \"Two\", format!(\"{{:{ch}}}\", E::Two(1)), String::from(\"[a}}b]\"));\n"
+               f"  check(\"{k}\", \"Three\", format!(\"{{:{ch}}}\", E::Three(7)), String::from(\"[{{7}}]\"));\n"
+               f"  check(\"{k}\", \"Four\", format!(\"{{:{ch}}}\", E::Four {{ x: 1 }}), String::from(\"[plain]\"));\n"
+               + (f"  check(\"{k}\", \"Plain\", format!(\"{{:{ch}}}\", E::Plain), String::from(\"[Plain]\"));" if plain else "") + " }")
+        cf.add(k, src, main_call=f"c{k}::run();")
+        descs[str(k)] = f"#[derive({X})] #[{an}(\"[{{_variant}}]\")] enum E {{ #[{an}(\"{{{{set}}}}\")] Set, #[{an}(\"a}}}}b\")] Two(u8), #[{an}(\"{{{{{{_0}}}}}}\")] Three(u8), #[{an}(\"plain\")] Four {{ x: u8 }}{plain} }}"
+        k += 1
     # an enum-level format that is a bare placeholder (a "transparent" call) is still the format of every variant
     # that has none of its own, whatever its number of fields and whichever trait the placeholder names
     for X, an, ch in (("Display", "display", ""), ("LowerHex", "lower_hex", "x"), ("Binary", "binary", "b")):
